@@ -6,6 +6,7 @@ from ..vm import Prog, expect_ok, lit_repr
 from . import seqs, maps
 
 ID = "C05"
+ALT_BUILD = True          # a quarter of the workers run the gcc -O0 build (core.py)
 LEVEL = "exploration"
 BUDGET = {"quick": 1200, "thorough": 240000}
 RULE = ("case = 1-5 containers (Array, List, Table, Tree with Probe elements/keys/values - a type with constructor, "
